@@ -175,6 +175,8 @@ fn recognize_http(method: &str, mut path: &str) -> (r: Result<Proxy, anyhow::Err
         // authority names (port 80 by default for plain HTTP), or the request is refused
         forall|s: int, e: int| auth_start(strb(path), s) && auth_end(strb(path), s, e) && #[trigger] target_wf(strb(path), s, e)
             ==> names(r, strb(method) == seq![67u8, 79u8, 78u8, 78u8, 69u8, 67u8, 84u8], strb(path).subrange(s, e)),
+        // an HTTP request is never taken for anything but an HTTP request
+        r matches Ok(p) ==> p is Http || p is Https,
 {
     let ghost p0 = strb(path);
     let ghost connect = strb(method) == seq![67u8, 79u8, 78u8, 78u8, 69u8, 67u8, 84u8];
